@@ -126,14 +126,18 @@ fn main() {
             }
             // 2c. faults: the source of the builder, the sink of the builder, the source of the reader, at every call
             let ncalls = 40usize.min(4 + n / 8);
+            let kinds = [std::io::ErrorKind::Other, std::io::ErrorKind::Interrupted, std::io::ErrorKind::WouldBlock, std::io::ErrorKind::UnexpectedEof, std::io::ErrorKind::TimedOut];
             for k in 0..ncalls {
+                // the kind of error must not matter: an implementation may retry an interrupted call (the injected fault
+                // happens once, so a retry ends with the complete result), but it may not take it for the end of the data
+                let kind = kinds[(k + n) % kinds.len()];
                 // builder source fault
                 let mut w = SchedWriter::new(vec![], None);
-                let mut src = SchedReader::new(payload.clone(), vec![8]).with_fault(Some(k));
+                let mut src = SchedReader::new(payload.clone(), vec![8]).with_fault(Some(k)).with_fault_kind(kind);
                 let r = guarded(|| build(cfg, &key, &mut src, &mut w));
                 let clean = matches!(r, Ok(Ok(())));
-                let ok = if src.faulted { !clean } else { clean && w.acc == reference };
-                cx.out.case("", &[], &["build-source-fault".into(), cname.clone(), n.to_string(), k.to_string()], &format!("faulted={} clean={} octets={}", src.faulted, clean, w.acc.len()), Some(ok), "fault-builder-source");
+                let ok = if clean { w.acc == reference } else { src.faulted };
+                cx.out.case("", &[], &["build-source-fault".into(), cname.clone(), n.to_string(), k.to_string(), format!("{kind:?}")], &format!("faulted={} clean={} octets={}", src.faulted, clean, w.acc.len()), Some(ok), "fault-builder-source");
                 // builder sink fault
                 let mut w = SchedWriter::new(vec![97], Some(k));
                 let r = guarded(|| build(cfg, &key, &payload[..], &mut w));
@@ -141,11 +145,38 @@ fn main() {
                 let ok = if w.faulted { !clean } else { clean && w.acc == reference };
                 cx.out.case("", &[], &["build-sink-fault".into(), cname.clone(), n.to_string(), k.to_string()], &format!("faulted={} clean={} octets={}", w.faulted, clean, w.acc.len()), Some(ok), "fault-builder-sink");
                 // reader source fault
-                let src = SchedBufReader::new(reference.clone(), vec![16]).with_fault(Some(k));
+                let src = SchedBufReader::new(reference.clone(), vec![16]).with_fault(Some(k)).with_fault_kind(kind);
                 let (r, got) = read_msg(cfg, &pk, src, (k % 3) as u8, &[13]);
                 // an error, or the complete right answer (the fault was never reached); never a clean shorter or different payload
                 let ok = match &r { Ok((o, s)) => *o == payload && *s, Err(_) => true };
-                cx.out.case("", &[], &["read-source-fault".into(), cname.clone(), n.to_string(), k.to_string()], &match &r { Ok((o, _)) => format!("clean end with {} of {} octets", o.len(), payload.len()), Err(_) => format!("error after {got} octets") }, Some(ok), "fault-reader-source");
+                cx.out.case("", &[], &["read-source-fault".into(), cname.clone(), n.to_string(), k.to_string(), format!("{kind:?}")], &match &r { Ok((o, _)) => format!("clean end with {} of {} octets", o.len(), payload.len()), Err(_) => format!("error after {got} octets") }, Some(ok), "fault-reader-source");
+            }
+        }
+    }
+
+    // ---- 2d. fixed-length packets with multi-octet length fields (two-octet, five-octet, old-format) read through
+    //          sources that cut inside the field
+    {
+        let cfg0 = Cfg { enc: 0, comp: false, sign: true, text: false, armor: false, pchunk: 512 };
+        for n in [200usize, 300, 8383, 8384, 9000, 70000] {
+            if !thorough && n == 70000 { continue; }
+            let payload = cx.rng.bytes(n);
+            let r = guarded(|| { let mut b = MessageBuilder::from_bytes("", payload.clone()); b.sign(&key.primary_key, Password::empty(), key.primary_key.hash_alg()); b.to_vec(Rng::new(9)).ok() });
+            let Ok(Some(msg)) = r else { continue; };
+            // the same message with old-format headers on every packet
+            let old = { let mut o = Vec::new(); let mut d = &msg[..]; let mut ok = true;
+                while d.len() >= 2 { let tag = d[0] & 0x3f; let (hl, bl) = match d[1] { x @ 0..=191 => (2, x as usize), x @ 192..=223 => (3, ((x as usize - 192) << 8) + d[2] as usize + 192), 255 => (6, u32::from_be_bytes([d[2], d[3], d[4], d[5]]) as usize), _ => { ok = false; break; } };
+                    if tag > 15 || d.len() < hl + bl { ok = false; break; }
+                    if bl < 256 { o.push(0x80 | (tag << 2)); o.push(bl as u8); } else if bl < 65536 { o.push(0x80 | (tag << 2) | 1); o.extend((bl as u16).to_be_bytes()); } else { o.push(0x80 | (tag << 2) | 2); o.extend((bl as u32).to_be_bytes()); }
+                    o.extend(&d[hl..hl + bl]); d = &d[hl + bl..]; }
+                if ok { Some(o) } else { None } };
+            for (fname, m) in [("new", Some(msg.clone())), ("old", old)] {
+                let Some(m) = m else { continue; };
+                for src in [vec![1usize], vec![2], vec![3, 1], vec![1, 2, 1, 4], vec![5], vec![]] {
+                    let (r, _) = read_msg(cfg0, &pk, SchedBufReader::new(m.clone(), src.clone()), 1, &[977]);
+                    let ok = matches!(&r, Ok((o, s)) if *o == payload && *s);
+                    cx.out.case("", &[], &["read-length-fields".into(), fname.into(), n.to_string(), nums(&src)], &match &r { Ok((o, s)) => format!("payload-equal={} ({} of {}) sig={}", *o == payload, o.len(), payload.len(), *s as u8), Err(e) => format!("ERR {}", &e[..e.len().min(80)]) }, Some(ok), &format!("read-schedule-length-fields-{fname}"));
+                }
             }
         }
     }
